@@ -559,6 +559,58 @@ static void op_splitter(Cur& c, std::ostream& o, bool join)
   }
 }
 
+// every asynchronous reduction of Gate / Global::Vector.  Per patch the REAL member is called and its ticket waited for
+// (without MPI the ticket hands back the rank's own contribution: the real local part, frequency weights included);
+// the allreduce over the patches is emulated, and the ticket's sqrt flag is applied to the reduced value through a
+// real SynchScalarTicket.
+static Q sqrt_ticket(Q reduced, const Dist::Comm& comm)
+{
+  Global::SynchScalarTicket<Q> t(reduced, comm, Dist::op_sum, true);
+  return t.wait();
+}
+
+template<typename VT_>
+static void op_async(Cur& c, std::ostream& o)
+{
+  typedef Global::Vector<VT_, MirrorT> GV;
+  auto ps = read_decomp(c);
+  Gates<VT_> G(ps);
+  std::vector<GV> xs, ys;
+  for(std::size_t r = 0; r < ps.size(); ++r) xs.emplace_back(G.gates[r].get(), make_vec<VT_>(ps[r].n, read_rats(c)));
+  for(std::size_t r = 0; r < ps.size(); ++r) ys.emplace_back(G.gates[r].get(), make_vec<VT_>(ps[r].n, read_rats(c)));
+  Q dxy(0), nsq(0), nsq2(0), gxx(0), ssum(0), ssq(0), sq2(0);
+  Q maxabs(0), minabs(0), maxel(0), minel(0), smin(0), smax(0);
+  std::vector<Q> locn;
+  for(std::size_t r = 0; r < ps.size(); ++r)
+  {
+    const auto& g = *G.gates[r];
+    dxy = dxy + xs[r].dot_async(ys[r]).wait();                    // Global::Vector::dot_async
+    nsq = nsq + xs[r].norm2sqr_async().wait();                    // Global::Vector::norm2sqr_async
+    locn.push_back(xs[r].norm2_async().wait());                   // Global::Vector::norm2_async: sqrt of this rank's part
+    nsq2 = nsq2 + g.dot_async(xs[r].local(), xs[r].local()).wait();        // Gate::dot_async, sqrt = false
+    gxx = gxx + g.dot_async(xs[r].local(), xs[r].local(), false).wait();
+    Q a = xs[r].max_abs_element_async().wait(), b = xs[r].min_abs_element_async().wait();
+    Q d = xs[r].max_element_async().wait(), e = xs[r].min_element_async().wait();
+    if(r == 0 || a > maxabs) maxabs = a;
+    if(r == 0 || b < minabs) minabs = b;
+    if(r == 0 || d > maxel) maxel = d;
+    if(r == 0 || e < minel) minel = e;
+    Q sc = xs[r].local().template elements<LAFEM::Perspective::pod>()[0];
+    ssum = ssum + g.sum_async(sc).wait();                         // Gate::sum_async
+    ssq = ssq + g.sum_async(sc * sc, false).wait();
+    Q mn = g.min_async(sc).wait(), mx = g.max_async(sc).wait();   // Gate::min_async / max_async
+    if(r == 0 || mn < smin) smin = mn;
+    if(r == 0 || mx > smax) smax = mx;
+    Global::SynchScalarTicket<Q> t(sc * sc, G.comm, Dist::op_sum, false);   // what Gate::norm2_async reduces
+    sq2 = sq2 + t.wait();
+  }
+  o << "A " << dxy.str() << " " << nsq.str() << " " << sqrt_ticket(nsq2, G.comm).str() << " " << sqrt_ticket(gxx, G.comm).str();
+  o << " " << locn.size();
+  for(auto& q : locn) o << " " << q.str();
+  o << " " << maxabs.str() << " " << minabs.str() << " " << maxel.str() << " " << minel.str();
+  o << " " << ssum.str() << " " << sqrt_ticket(ssq, G.comm).str() << " " << smin.str() << " " << smax.str() << " " << sqrt_ticket(sq2, G.comm).str();
+}
+
 template<typename VT_>
 static bool dispatch(const std::string& op, Cur& c, std::ostream& o, Index bs)
 {
@@ -570,6 +622,7 @@ static bool dispatch(const std::string& op, Cur& c, std::ostream& o, Index bs)
   else if(op == "vmax") op_vmax<VT_>(c, o);
   else if(op == "vops") op_vops<VT_>(c, o);
   else if(op == "valias") op_valias<VT_>(c, o);
+  else if(op == "async") op_async<VT_>(c, o);
   else if(op == "mgather") op_mirror<VT_>(c, o, false, bs);
   else if(op == "mscatter") op_mirror<VT_>(c, o, true, bs);
   else return false;
@@ -582,7 +635,7 @@ static void handle(const verif::Tokens& t, std::ostream& o)
 {
   Cur c(t);
   std::string op = c.str();
-  if(op == "csync0" || op == "csync1" || op == "cdot" || op == "cmuxjoin" || op == "cmuxsplit")
+  if(op == "csync0" || op == "csync1" || op == "cdot" || op == "casync" || op == "cmuxjoin" || op == "cmuxsplit")
   {
     if(!composite_dispatch(op, c, o)) o << "BAD-OP";
     return;
@@ -595,7 +648,7 @@ static void handle(const verif::Tokens& t, std::ostream& o)
   if(op == "spljoin") { op_splitter(c, o, true); return; }
   if(op == "splsplit") { op_splitter(c, o, false); return; }
   if(op == "freqs" || op == "sync0" || op == "sync1" || op == "dot" || op == "mgather" || op == "mscatter"
-    || op == "norm" || op == "vmax" || op == "vops" || op == "valias")
+    || op == "norm" || op == "vmax" || op == "vops" || op == "valias" || op == "async")
   {
     Index bs = c.idx();
     bool ok = false;
